@@ -98,6 +98,31 @@ def soft_cmp(a, b) -> str:
     return "same" if core.canon(a) == core.canon(b) else "differ"
 
 
+DECODE_LIMIT = 20000    # characters; the model's line splitter is structurally recursive
+
+
+def text_lines(ctx, path, feats=None):
+    """the lines of the file as Python's text layer hands them to pewlib (codec utf-8-sig, universal newlines).  For files of
+    fewer than DECODE_LIMIT characters the Lean model of that layer (`decodeLines`: byte order mark, \\r\\n and \\r, lines with
+    their terminator) gets the characters of the file (bytes decoded as plain UTF-8) and must hand out the same lines."""
+    with path.open("r", encoding="utf-8-sig") as fp:
+        lines = list(fp)
+    raw = path.read_bytes().decode("utf-8")
+    if len(raw) < DECODE_LIMIT:
+        rep = ctx.driver.call("c03.decode", chars=raw)
+        if rep["lines"] != lines:
+            raise InternalError("the Lean model of the text layer (decodeLines) and Python's text layer disagree")
+        if feats is not None:
+            feats.add("text-layer:modelled")
+    elif feats is not None:
+        feats.add("text-layer:trusted (long file)")
+    return lines
+
+
+def canon_call(c) -> str:
+    return core.canon(c)
+
+
 def call(f, *a, **k):
     try:
         return f(*a, **k)
@@ -122,7 +147,13 @@ class C03(Prop):
             "small export edited line by line — blank lines and lines starting with '#', rows cut short or too long, missing sample rows or header "
             "lines, missing trailing delimiters or final terminator, '#' and blanks in names, non-integer/negative/missing scan "
             "numbers, ragged MainRuns lines, single selected lines, names with one line), where the property is silent and pewlib "
-            "is compared with the model only; non-trivial = every export and every text case")
+            "is compared with the model only; 10%: histories (kind 'history': 3..7 steps on up to three paths, each step optionally "
+            "writes an export of either layout / another delimiter-decimal pair / a text that is no export onto the path — modification "
+            "time kept by os.utime, carried over by os.replace, stamped by the file system, moved on, or one coarse second — and then "
+            "calls the sniffer, load (full on/off), the data and params readers; every call judged by the Lean specification of what the "
+            "path holds at that moment); the export stream also draws 30..120 elements, non-ASCII / quoted / str.splitlines-separator "
+            "names, irregular Time channels, values at the ends of the binary64 range, str paths, positional arguments, "
+            "comma_decimal=True on comma-free exports, load(full=False); non-trivial = every export, history and text case")
     trusted = [
         "float()/int()/str() and the field conversion of np.genfromtxt: a field parses to float(token) (NaN when that fails, "
         "loose mode), a scan field of the columns layout to int(token) (-1 when that fails); "
@@ -131,7 +162,9 @@ class C03(Prop):
         "np.genfromtxt(comments=None) line handling as modelled by `gfSplit` (no comment character: '#' is data; "
         "strip(' \\r\\n'), empty lines skipped, "
         "equal field counts without usecols, a row valid with usecols once it reaches the last selected column)",
-        "the utf-8-sig codec removes the BOM; universal newlines; both layouts start with the delimiter",
+        "UTF-8 decoding of the bytes; BOM removal, universal newlines and line splitting as modelled by `decodeLines` (compared with "
+        "Python's text layer on every file under 20000 characters, trusted beyond); both layouts start with the delimiter",
+        "histories: os.utime / os.replace / shutil.copyfile put the files where the events sent to the driver say they are",
         "the files written by harness/gen_thermo.py are compared in every case, field by field and (read back through Python's "
         "text layer) line by line, with the tables and the text rendered by the Lean model; the model's readers run on that "
         "text split again (lines under 20000 characters) or on the table (longer lines)",
@@ -142,6 +175,8 @@ class C03(Prop):
         "name or 'MainRuns' (a '#' is allowed anywhere: sample names, labels, fields); sample names of the columns layout "
         "non-empty; every line ends with the delimiter (as Qtegra writes it)",
         "a channel that was not exported: the readers raise (compared with the model only, the property is silent)",
+        "histories: load and the readers are not called on a text that is no export, a reader is only called for the layout / "
+        "decimal mark / delimiter of the file its path holds (the property is silent otherwise)",
         "texts outside the export format (kind 'text'): compared with the model only. strict (rows layout, edits that only "
         "exercise str.split of the header rows and np.genfromtxt(usecols) on the sample rows; unedited columns exports): "
         "every reader, the sniffer and load equal the model, exceptions included. soft (everything else): a correspondence "
@@ -158,6 +193,8 @@ class C03(Prop):
             return gen_thermo.generate_late(rng, tier)
         if r < 0.42:    # texts outside the export format, compared with the model only
             return gen_thermo.generate_text(rng, tier)
+        if r < 0.52:    # several calls in one process on paths that are rewritten in between
+            return gen_thermo.generate_history(rng, tier)
         return gen_thermo.generate(rng, tier)
 
     def targeted(self, tier):
@@ -185,11 +222,28 @@ class C03(Prop):
                     yield {"kind": kind, "use_analog": ua, "delimiter": combo[0], "decimal": combo[1], "bom": False, "eol": "\r\n",
                            "explicit_delimiter": kind == "readers" and combo[0] == ";",
                            "acq": {"samples": samples, "nscans": 2, "elements": elements, "channels": chans, "tokens": toks}}
+        # many samples (lines): the two header lines of the columns layout are longer than 4096 / 8192 / 16384 characters, so the
+        # first MainRuns line starts beyond any fixed read-ahead window
+        for nbig, combo, kind in ((180, (",", "."), "load"), (400, (";", ","), "readers"), (400, (",", "."), "load"), (900, (";", "."), "load")):
+            dec = (lambda t: t.replace(".", ",")) if combo[1] == "," else (lambda t: t)
+            toks = [[[[dec(f"{0.25 * s + 0.001 * (i % 7):.3f}"), dec(f"{(i * 37 + s * 11) % 1000}.5")]] for s in range(2)] for i in range(nbig)]
+            yield {"kind": kind, "use_analog": False, "delimiter": combo[0], "decimal": combo[1], "bom": nbig == 400, "eol": "\r\n",
+                   "explicit_delimiter": False,
+                   "acq": {"samples": [f"Sample {i + 1}" for i in range(nbig)], "nscans": 2, "elements": ["31P"], "channels": ["Time", "Counter"],
+                           "tokens": toks}}
         # more than 10000 scans: scan numbers with five digits
         toks = [[[[str((7 * s) % 11)]] for s in range(10001)]]
         yield {"kind": "readers", "use_analog": False, "delimiter": ",", "decimal": ".", "bom": False, "eol": "\r\n",
                "explicit_delimiter": False,
                "acq": {"samples": ["1"], "nscans": 10001, "elements": ["31P"], "channels": ["Counter"], "tokens": toks}}
+        if tier == "thorough":
+            # more than 65536 MainRuns lines (10 elements x 5 channels x 1400 scans) / more than 65536 scans
+            for n, m, k, chans, kind in ((1, 1400, 10, ["X [u]", "Y", "Time", "Analog", "Counter"], "load"), (1, 66000, 1, ["Counter"], "readers")):
+                toks = [[[[f"{0.25 * s + 0.01 * e:.2f}" if ch == "Time" else f"{(i * 7 + s * 3 + e + c) % 1000}.5" for c, ch in enumerate(chans)]
+                          for e in range(k)] for s in range(m)] for i in range(n)]
+                yield {"kind": kind, "use_analog": False, "delimiter": ",", "decimal": ".", "bom": False, "eol": "\r\n", "explicit_delimiter": False,
+                       "acq": {"samples": [f"S{i}" for i in range(n)], "nscans": m, "elements": [f"{10 + e}X" for e in range(k)], "channels": chans,
+                               "tokens": toks}}
         # no decimal mark in the first 16/17/33/65 lines (zero counts written as `0`), fractional values only later:
         # the Counter-only export of a low-abundance first isotope, each layout in turn, every delimiter/decimal pair
         for combo in ((";", ","), (";", "."), (",", ".")):
@@ -203,6 +257,29 @@ class C03(Prop):
         for lay, eds in (("rows", gen_thermo.TEXT_EDITS_ROWS + gen_thermo.TEXT_EDITS_ROWS_SOFT), ("cols", gen_thermo.TEXT_EDITS_COLS)):
             for e in eds:
                 yield gen_thermo.generate_text(random.Random(f"C03-text-{lay}-{e}"), tier, layout=lay, edits=[e])
+        # histories: the same path holds a rows export, then a columns export, then a text that is no export (and the reverse,
+        # and the other delimiter / decimal mark), written so that the modification time stays / moves / is stamped anew;
+        # sniff -> load -> readers on each; the same file twice; two paths in turn
+        for how in ("keep", "replace-keep", "natural", "bump"):
+            for order in (("rows", "cols", "other", "rows"), ("cols", "rows", "other-same-size", "cols"), ("other", "rows", "cols", "same"),
+                          ("rows", "rows", "cols", "cols")):
+                rng = random.Random(f"C03-history-{how}-{order}")
+                script = [{"path": 0, "what": w, "acq": q, "how": how, "calls": cs, "mutate": q in (1, 3)}
+                          for q, (w, cs) in enumerate(zip(order, (["sniff", "load"], ["sniff", "load", "data", "params"], ["load", "sniff"], ["load", "load"])))]
+                yield gen_thermo.generate_history(rng, tier, script=script)
+        # one path, one layout, the three delimiter / decimal-mark pairs one after the other (every order of the pairs comes up over
+        # the six scripts), imported through load and through the readers each time
+        for how in ("keep", "replace-keep", "clock-1s"):
+            for lay in ("rows", "cols"):
+                rng = random.Random(f"C03-history-decimal-{how}-{lay}")
+                script = [{"path": 0, "what": lay, "acq": q % 3, "how": how, "calls": ["load", "data"] if q % 2 else ["load", "params", "load"],
+                           "mutate": False} for q in range(7)]
+                yield gen_thermo.generate_history(rng, tier, script=script, nacq=3)
+        for order in (("rows", "cols"), ("cols", "other"), ("other", "rows")):
+            rng = random.Random(f"C03-history-alternate-{order}")
+            script = [{"path": q % 2, "what": order[q % 2] if q < 2 else (None if q < 4 else order[(q + 1) % 2]), "acq": q % 2, "how": "keep",
+                       "calls": ["sniff", "load"], "mutate": False} for q in range(6)]
+            yield gen_thermo.generate_history(rng, tier, script=script)
         for lines in ([], [""], ["A,B"], ["1,2", "3,4"], ["x", "MainRuns,0,A,Counter,1,"], ["a", "b", "c"],
                       ["a", "MainRuns", "c", "MainRuns"]):
             for final in (True, False):
@@ -219,9 +296,14 @@ class C03(Prop):
             p.write_bytes((b"\xef\xbb\xbf" if case["bom"] else b"") + body.encode("utf-8"))
             r = call(thermo.icap_csv_sample_format, p)
             impl = {"raises": type(r).__name__} if isinstance(r, Exception) else str(r)
-            rep = ctx.driver.call("c03.sniff", lines=case["lines"])
+            fs = set()
+            decoded = text_lines(ctx, p, fs)
+            # the model gets the lines as the text layer hands them to pewlib
+            rep = ctx.driver.call("c03.sniff", lines=decoded)
             nl = len(case["lines"])
-            feats = ["other-file", "short-file" if nl < 3 else "long-file", "bom" if case["bom"] else "no-bom"]
+            feats = ["other-file", "short-file" if nl < 3 else "long-file", "bom" if case["bom"] else "no-bom"] + sorted(fs)
+            if case.get("shifted"):
+                feats.append("other-file:export-after-title-or-blank-lines")
             if rep["other"]:
                 # "anything else": neither the first nor the third line mentions MainRuns; the specification is the constant
                 # the driver returns for such a file ('unknown'), not the model's output
@@ -231,8 +313,13 @@ class C03(Prop):
             return outcome(impl, rep["model"], impl, hyp=False, features=feats + ["mentions-MainRuns"])
         if case["kind"] == "text":
             return self.evaluate_text(case, ctx, d)
+        if case["kind"] == "history":
+            return self.evaluate_history(case, ctx, d)
         a = case["acq"]
-        delim, comma = case["delimiter"], case["decimal"] == ","
+        delim = case["delimiter"]
+        # comma_decimal=True may also be passed for a ';'-delimited export with decimal points: it holds no comma at all
+        comma_flag = bool(case.get("comma_flag")) and delim == ";" and case["decimal"] == "."
+        comma = case["decimal"] == "," or comma_flag
         trows, tcols = gen_thermo.table_rows(a), gen_thermo.table_cols(a)
         prow, pcol = d / "rows.csv", d / "cols.csv"
         gen_thermo.write(prow, trows, delim, case["eol"], case["bom"])
@@ -250,10 +337,10 @@ class C03(Prop):
             raise InternalError("Python table writer and Lean renderer disagree")
         # the files as Python's text layer hands them to pewlib (codec, universal newlines) are, line by line, the text
         # the Lean model rendered (and split again for its readers)
+        tl_feats = set()
         for path, key in ((prow, "text_rows"), (pcol, "text_cols")):
-            with path.open("r", encoding="utf-8-sig") as fp:
-                if list(fp) != rep[key]:
-                    raise InternalError("the file written and the text rendered by the Lean model disagree")
+            if text_lines(ctx, path, tl_feats) != rep[key]:
+                raise InternalError("the file written and the text rendered by the Lean model disagree")
         dl = delim if case["explicit_delimiter"] else None
         impl, model, spec = {}, {}, {}
         und = False
@@ -261,7 +348,7 @@ class C03(Prop):
         feats = {f"n{n}" if n <= 2 else "n>=3", f"m{m}" if m <= 2 else "m>=3", f"k{len(a['elements'])}" if len(a["elements"]) <= 2 else "k>=3",
                  f"delim{delim}dec{case['decimal']}", "bom" if case["bom"] else "no-bom", "crlf" if case["eol"] == "\r\n" else "lf",
                  "explicit-delimiter" if dl else "auto-delimiter", "channels:" + "+".join(c[0] for c in a["channels"]), case["kind"],
-                 "model-splits-the-text" if rep["resplit"] else "model-reads-the-table"}
+                 "model-splits-the-text" if rep["resplit"] else "model-reads-the-table"} | tl_feats
         if any("#" in x for x in a["samples"]):
             feats.add("hash:sample-name")
             feats.add("hash:sample-name:" + ("first" if "#" in a["samples"][0] else "later"))
@@ -278,6 +365,45 @@ class C03(Prop):
             elif first is None:
                 feats.add("no-decimal-mark-at-all")
         bychan = {c["channel"]: c for c in rep["channels"]}
+        if comma_flag and case["kind"] == "readers":
+            feats.add("comma_decimal=True-on-an-export-without-commas")
+        if any(ord(ch) > 127 for x in a["samples"] + a["elements"] for ch in x):
+            feats.add("names:non-ascii")
+        if any(ch in x for x in a["samples"] + a["elements"] for ch in "\"'\t"):
+            feats.add("names:quotes-or-tabs")
+        if any(ch in x for x in a["samples"] + a["elements"] for ch in "\x0b\x0c\x1c\x85\u2028"):
+            feats.add("names:separators-of-str.splitlines")
+        if any(x != x.strip() or "  " in x for x in a["samples"] + a["elements"]):
+            feats.add("names:leading-trailing-double-blanks")
+        if len(set(a["samples"])) < len(a["samples"]):
+            feats.add("names:repeated-sample-name")
+        if len(a["elements"]) >= 30:
+            feats.add("k>=30")
+        if n >= 20 and m >= 20:
+            feats.add("n>=20-and-m>=20")
+        if "Time" in a["channels"]:
+            ti = a["channels"].index("Time")
+            first = [[gen_thermo.value_of(a["tokens"][i][s][0][ti].replace(",", ".")) for s in range(m)] for i in range(n)]
+            ivs = {round(r[s + 1] - r[s], 3) for r in first for s in range(m - 1)}
+            if len(ivs) > 2:
+                feats.add("time:irregular-intervals")
+            if any(r[s + 1] <= r[s] for r in first for s in range(m - 1)):
+                feats.add("time:repeated-or-earlier-stamp")
+            if n > 1 and len({tuple(round(r[s + 1] - r[s], 3) for s in range(m - 1)) for r in first}) > 1:
+                feats.add("time:intervals-differ-between-samples")
+        vals = [abs(gen_thermo.value_of(t.replace(",", "."))) for t in toks]
+        if any(v >= 1e200 for v in vals if v == v):
+            feats.add("values:>=1e200")
+        if any(0 < v <= 1e-200 for v in vals if v == v):
+            feats.add("values:<=1e-200")
+        if any(len([ch for ch in t.split("E")[0].split("e")[0] if ch.isdigit()]) >= 17 for t in toks):
+            feats.add("values:17-digits")
+        as_path = (lambda q: str(q)) if case.get("path_str") else (lambda q: q)
+        positional = bool(case.get("positional"))
+        if case.get("path_str"):
+            feats.add("call:path-as-str")
+        if positional:
+            feats.add("call:positional-arguments")
         with warnings.catch_warnings():
             warnings.simplefilter("ignore")
             logging.disable(logging.WARNING)
@@ -286,7 +412,8 @@ class C03(Prop):
                     for lay, path, rd, rp in (("rows", prow, thermo.icap_csv_rows_read_data, thermo.icap_csv_rows_read_params),
                                               ("cols", pcol, thermo.icap_csv_columns_read_data, thermo.icap_csv_columns_read_params)):
                         for ua, ch in ((False, "Counter"), (True, "Analog")):
-                            r = call(rd, path, delimiter=dl, comma_decimal=comma, use_analog=ua)
+                            r = (call(rd, as_path(path), dl, comma, ua) if positional
+                                 else call(rd, as_path(path), delimiter=dl, comma_decimal=comma, use_analog=ua))
                             key = f"{lay}.data.{ch}"
                             impl[key] = dict(ERR) if isinstance(r, Exception) else img_impl(r)
                             if ch in bychan:
@@ -296,7 +423,7 @@ class C03(Prop):
                                 model[key] = img_driver(mm[lay])
                                 spec[key] = impl[key]
                                 feats.add("channel-not-exported")
-                        r = call(rp, path, delimiter=dl, comma_decimal=comma)
+                        r = call(rp, as_path(path), dl, comma) if positional else call(rp, as_path(path), delimiter=dl, comma_decimal=comma)
                         key = f"{lay}.params"
                         impl[key] = dict(ERR) if isinstance(r, Exception) else params_impl(r)
                         model[key], u1 = params_driver(rep["params_" + lay])
@@ -305,7 +432,7 @@ class C03(Prop):
                             und = und or u1 or u2
                         else:
                             spec[key] = impl[key]
-                        r = call(thermo.icap_csv_sample_format, path)
+                        r = call(thermo.icap_csv_sample_format, as_path(path))
                         key = f"{lay}.format"
                         impl[key] = dict(ERR) if isinstance(r, Exception) else str(r)
                         model[key] = rep["sniff_" + lay]
@@ -316,7 +443,19 @@ class C03(Prop):
                     ua = case["use_analog"]
                     ch = "Analog" if ua else "Counter"
                     for lay, path in (("rows", prow), ("cols", pcol)):
-                        r = call(thermo.load, path, use_analog=ua, full=True)
+                        # full=False: the array alone
+                        r = call(thermo.load, as_path(path), ua, False) if positional else call(thermo.load, as_path(path), use_analog=ua, full=False)
+                        key = f"{lay}.load-data.{ch}"
+                        mj = rep[f"loaddata_{lay}" + ("_analog" if ua else "")]
+                        if isinstance(r, Exception):
+                            impl[key] = dict(ERR)
+                        elif isinstance(r, tuple):
+                            impl[key] = {"bad_return": "tuple"}
+                        else:
+                            impl[key] = {"image": img_impl(r)}
+                        model[key] = dict(ERR) if "raises" in mj else {"image": img_driver(mj["image"])}
+                        spec[key] = {"image": img_driver(bychan[ch]["spec"])} if ch in bychan else impl[key]
+                        r = call(thermo.load, as_path(path), ua, True) if positional else call(thermo.load, as_path(path), use_analog=ua, full=True)
                         key = f"{lay}.load.{ch}"
                         mj = rep[f"load_{lay}" + ("_analog" if ua else "")]
                         if isinstance(r, Exception):
@@ -359,8 +498,8 @@ class C03(Prop):
         eol = case["eol"]
         body = eol.join(case["lines"]) + (eol if case["final_eol"] and case["lines"] else "")
         p.write_bytes((b"\xef\xbb\xbf" if case["bom"] else b"") + body.encode("utf-8"))
-        with p.open("r", encoding="utf-8-sig") as fp:   # codec and universal newlines: Python's, not pewlib's
-            lines = list(fp)
+        tl_feats = set()
+        lines = text_lines(ctx, p, tl_feats)    # codec and universal newlines: Python's (and the Lean model of them), not pewlib's
         dl = case["delimiter"] if case["explicit_delimiter"] else None
         comma = case["decimal"] == "," and case["delimiter"] != ","
         fields = ctx.driver.call("c03.fields", lines=lines, delimiter=dl)["fields"]
@@ -427,7 +566,7 @@ class C03(Prop):
                             if pd and "scantime" in pd:
                                 pd["scantime"] = "~"
         edits = case["edits"]
-        feats = {"text", f"text:{case['layout']}", "explicit-delimiter" if dl else "auto-delimiter"} | {f"text:{case['layout']}:{e}" for e in edits}
+        feats = {"text", f"text:{case['layout']}", "explicit-delimiter" if dl else "auto-delimiter"} | {f"text:{case['layout']}:{e}" for e in edits} | tl_feats
         reads = [k for k, v in impl.items() if k != "format" and soft_cmp(v, v) == "same"]
         feats.add("text:something-imports" if reads else "text:nothing-imports")
         if gen_thermo.is_strict(case):
@@ -443,6 +582,225 @@ class C03(Prop):
         return outcome(impl, impl, impl, hyp=False, features=feats,
                        note=("pewlib and the model differ in whether they import: " + ", ".join(skipped)) if skipped else "")
 
+
+    def evaluate_history(self, case, ctx, d):
+        """several calls in one process on one or two paths that are written again in between (other layout, other
+        delimiter / decimal mark, a text that is no export; modification time kept, stamped by the file system or moved on).
+        The driver gets what was exported where and when (`c03.history`): its model reads the text the path holds at the time
+        of each call, its specification judges each call by what was last exported to the path."""
+        import os
+        import shutil
+
+        from pewlib.io import thermo
+
+        contents, steps = case["contents"], case["steps"]
+        stage = d / "stage"
+        stage.mkdir()
+        toks = set()
+        jcont, decoded = [], []
+        for i, c in enumerate(contents):
+            f = stage / f"c{i}.csv"
+            if c["kind"] == "other":
+                body = c["eol"].join(c["lines"]) + (c["eol"] if c["final_eol"] and c["lines"] else "")
+                f.write_bytes((b"\xef\xbb\xbf" if c["bom"] else b"") + body.encode("utf-8"))
+            else:
+                a = c["acq"]
+                gen_thermo.write(f, gen_thermo.table_rows(a) if c["kind"] == "rows" else gen_thermo.table_cols(a), c["delimiter"], c["eol"], c["bom"])
+                toks |= {t for ps in a["tokens"] for pe in ps for pc in pe for t in pc}
+            decoded.append(text_lines(ctx, f))
+            if c["kind"] == "other":
+                jcont.append({"kind": "other", "lines": decoded[-1]})
+            else:
+                a = c["acq"]
+                jcont.append({"kind": c["kind"], "delimiter": c["delimiter"], "comma": c["decimal"] == ",", "samples": a["samples"],
+                              "nscans": a["nscans"], "elements": a["elements"], "channels": a["channels"], "tokens": a["tokens"]})
+        table = {}
+        for t in sorted(toks):
+            table[t] = core.orat(gen_thermo.value_of(t))
+            table[t.replace(",", ".")] = core.orat(gen_thermo.value_of(t.replace(",", ".")))
+        # the events: a call on a path that was never written (only a shrinker gets there) is left out
+        events, plan = [], []
+        cur, label, fresh = {}, {}, 0
+        for q, st in enumerate(steps):
+            p, w = st["path"], st["write"]
+            if w is not None:
+                if not (0 <= w < len(contents)):
+                    raise InternalError("history: content index out of range")
+                if p not in (0, 1, 2):
+                    raise InternalError("history: unknown path")
+                first = p not in cur
+                how = st["how"] if (not first or st["how"] == "clock-1s") else "natural"
+                oldlabel = label.get(p)
+                if how == "clock-1s":
+                    label[p] = 0
+                elif how not in ("keep", "replace-keep"):
+                    fresh += 1
+                    label[p] = fresh
+                events.append({"path": p, "write": w, "mtime": label[p]})
+                plan.append(("write", p, w, how, cur.get(p), oldlabel == label[p]))
+                cur[p] = w
+            if p not in cur:
+                continue
+            for ci, c in enumerate(st["calls"]):
+                k = contents[cur[p]]
+                if c["fn"] != "sniff":
+                    if k["kind"] == "other":
+                        continue            # load / readers on a text that is no export: the property is silent
+                    if c["fn"] in ("data", "params") and (c["rows"] != (k["kind"] == "rows") or c["comma"] != (k["decimal"] == ",")
+                                                          or c["delimiter"] not in (None, k["delimiter"])):
+                        continue            # a reader for another kind of file (a shrinker removed the write): silent
+                events.append({"path": p, "call": c})
+                plan.append(("call", p, c, f"{q}.{ci}.{c['fn']}", st["mutate"], cur[p]))
+        rep = ctx.driver.call("c03.history", contents=jcont, events=events, parse=[[k, v] for k, v in table.items()])
+        for i, c in enumerate(contents):
+            if rep["texts"][i] != decoded[i]:
+                raise InternalError("the file written and the text rendered by the Lean model disagree")
+        results = list(rep["results"])
+        impl, model, spec = {}, {}, {}
+        und = False
+        feats = {"history", f"history:steps:{min(len(steps), 6)}{'+' if len(steps) >= 6 else ''}"}
+        (d / "run2").mkdir()
+        paths = {0: d / "export0.csv", 1: d / "export1.csv", 2: d / "run2" / "export0.csv"}
+        sniffed = {}          # path -> layout names a call has seen there (what a stale answer could come from)
+
+        def kindname(i):
+            return contents[i]["kind"]
+
+        def run_call(c, path):
+            if c["fn"] == "sniff":
+                r = call(thermo.icap_csv_sample_format, path)
+                return (dict(ERR) if isinstance(r, Exception) else str(r)), r
+            if c["fn"] == "load":
+                r = call(thermo.load, path, use_analog=c["use_analog"], full=c["full"])
+                if isinstance(r, Exception):
+                    return dict(ERR), r
+                if c["full"]:
+                    if not (isinstance(r, tuple) and len(r) == 2):
+                        return {"bad_return": type(r).__name__}, r
+                    return {"image": img_impl(r[0]), "params": params_impl(r[1])}, r
+                if isinstance(r, tuple):
+                    return {"bad_return": "tuple"}, r
+                return {"image": img_impl(r)}, r
+            rows = c["rows"]
+            if c["fn"] == "data":
+                f = thermo.icap_csv_rows_read_data if rows else thermo.icap_csv_columns_read_data
+                r = call(f, path, delimiter=c["delimiter"], comma_decimal=c["comma"], use_analog=c["use_analog"])
+                return (dict(ERR) if isinstance(r, Exception) else img_impl(r)), r
+            f = thermo.icap_csv_rows_read_params if rows else thermo.icap_csv_columns_read_params
+            r = call(f, path, delimiter=c["delimiter"], comma_decimal=c["comma"])
+            return (dict(ERR) if isinstance(r, Exception) else params_impl(r)), r
+
+        def scrub(r):
+            """the caller edits what it was handed (its own arrays): a later import must not see that"""
+            import numpy as np
+
+            for v in (r if isinstance(r, tuple) else (r,)):
+                if isinstance(v, np.ndarray) and v.dtype.names:
+                    for nm in v.dtype.names:
+                        v[nm] = -7.0
+                elif isinstance(v, dict):
+                    for vv in v.values():
+                        if isinstance(vv, np.ndarray):
+                            vv[...] = -7.0
+                    v["scantime"] = -7.0
+
+        def driver_out(c, j):
+            if j is None:
+                return None, False
+            if c["fn"] == "sniff":
+                return j, False
+            if c["fn"] == "load":
+                if "raises" in j:
+                    return dict(ERR), False
+                o, u = {"image": img_driver(j["image"])}, False
+                if "params" in j:
+                    o["params"], u = params_driver(j["params"])
+                return o, u
+            if c["fn"] == "data":
+                return img_driver(j), False
+            return params_driver(j)
+
+        with warnings.catch_warnings():
+            warnings.simplefilter("ignore")
+            logging.disable(logging.WARNING)
+            try:
+                for item in plan:
+                    if item[0] == "write":
+                        _, p, w, how, before, kept = item
+                        path = paths[p]
+                        src = stage / f"c{w}.csv"
+                        old = os.stat(path) if path.exists() else None
+                        if how == "replace-keep":
+                            tmp = d / "incoming.csv"
+                            shutil.copyfile(src, tmp)
+                            os.utime(tmp, ns=(old.st_atime_ns, old.st_mtime_ns))
+                            os.replace(tmp, path)
+                        else:
+                            shutil.copyfile(src, path)
+                            if how == "keep":
+                                os.utime(path, ns=(old.st_atime_ns, old.st_mtime_ns))
+                            elif how == "bump" and old is not None:
+                                os.utime(path, ns=(old.st_atime_ns, old.st_mtime_ns + 10 ** 9))
+                            elif how == "clock-1s":
+                                os.utime(path, ns=(1_700_000_000 * 10 ** 9, 1_700_000_000 * 10 ** 9))
+                        if before is not None:
+                            a, b = kindname(before), kindname(w)
+                            if before == w or contents[before] == contents[w]:
+                                feats.add("history:rewrite:same-content")
+                            else:
+                                feats.add(f"history:rewrite:{a}->{b}")
+                                if "other" not in (a, b) and (contents[before]["delimiter"], contents[before]["decimal"]) != (contents[w]["delimiter"], contents[w]["decimal"]):
+                                    feats.add("history:rewrite:other-delimiter-or-decimal")
+                                    if kept and (contents[before]["decimal"] == ",") != (contents[w]["decimal"] == ","):
+                                        feats.add("history:rewrite:other-decimal-mark-same-mtime")
+                                if a != b and a in sniffed.get(p, ()):
+                                    feats.add("history:stale-answer-possible:" + ("mtime-kept" if kept else "mtime-" + how))
+                                if gen_thermo.content_size(contents[before]) == gen_thermo.content_size(contents[w]) and kept:
+                                    feats.add("history:rewrite:same-size-same-mtime")
+                        feats.add(f"history:write:{how}")
+                        continue
+                    _, p, c, key, mutate, at = item
+                    j = results.pop(0)
+                    as_str = (len(impl) % 3) == 2      # the path as a str instead of a Path, every third call
+                    got, raw = run_call(c, str(paths[p]) if as_str else paths[p])
+                    impl[key] = got
+                    model[key], u1 = driver_out(c, j["model"])
+                    sp, u2 = driver_out(c, j["spec"])
+                    und = und or u1 or u2
+                    if sp is None:      # a channel that was not exported: the property is silent, the model says the call raises
+                        spec[key] = got
+                        feats.add("channel-not-exported")
+                    else:
+                        spec[key] = sp
+                    if c["fn"] in ("sniff", "load"):
+                        sniffed.setdefault(p, set()).add(kindname(at))
+                    feats.add(f"history:call:{c['fn']}" + (":full=False" if c["fn"] == "load" and not c["full"] else ""))
+                    if mutate and not isinstance(raw, (Exception, str)):
+                        scrub(raw)
+                        feats.add("history:caller-edits-result")
+            finally:
+                logging.disable(logging.NOTSET)
+        if results:
+            raise InternalError("history: calls and results out of step")
+        seen = {}
+        for item in plan:
+            if item[0] == "call":
+                k = (item[1], item[5], canon_call(item[2]))
+                seen[k] = seen.get(k, 0) + 1
+        if any(v > 1 for v in seen.values()):
+            feats.add("history:same-call-twice-on-one-file")
+        if len({item[1] for item in plan}) > 1:
+            feats.add("history:two-paths")
+        if und:
+            feats.add("scantime-near-rounding-tie")
+            for r in (impl, model, spec):
+                for v in r.values():
+                    if isinstance(v, dict):
+                        for pd in (v, v.get("params") if isinstance(v.get("params"), dict) else None):
+                            if pd and "scantime" in pd:
+                                pd["scantime"] = "~"
+        return outcome(impl, model, spec, features=feats)
+
     def shrink(self, case):
         if case["kind"] == "sniff_other":
             ls = case["lines"]
@@ -450,6 +808,19 @@ class C03(Prop):
                 yield {**case, "lines": ls[:i] + ls[i + 1:]}
             return
         if case["kind"] == "text":      # compared with the model only: never shrunk towards another text
+            return
+        if case["kind"] == "history":
+            st = case["steps"]
+            for i in range(len(st)):
+                if len(st) > 1:
+                    yield {**case, "steps": st[:i] + st[i + 1:]}
+            for i in range(len(st)):
+                cs = st[i]["calls"]
+                for j in range(len(cs)):
+                    if len(cs) > 1:
+                        yield {**case, "steps": st[:i] + [{**st[i], "calls": cs[:j] + cs[j + 1:]}] + st[i + 1:]}
+                if st[i]["mutate"]:
+                    yield {**case, "steps": st[:i] + [{**st[i], "mutate": False}] + st[i + 1:]}
             return
         a = case["acq"]
         n, m, k, C = len(a["samples"]), a["nscans"], len(a["elements"]), len(a["channels"])
